@@ -33,24 +33,22 @@ EXTENDS Naturals, Sequences, FiniteSets, TLC
 \* ------------------------------------------------------------------------------------------------- strings
 StartsWith(s, p) == Len(p) <= Len(s) /\ SubSeq(s, 1, Len(p)) = p
 EndsWith(s, p) == Len(p) <= Len(s) /\ SubSeq(s, Len(s) - Len(p) + 1, Len(s)) = p
-RECURSIVE IndexFrom(_, _, _)
-IndexFrom(s, sub, i) == IF i + Len(sub) - 1 > Len(s) THEN 0
-                        ELSE IF SubSeq(s, i, i + Len(sub) - 1) = sub THEN i
-                        ELSE IndexFrom(s, sub, i + 1)
-IndexOf(s, sub) == IndexFrom(s, sub, 1)          \* str.find(sub) + 1  (0: not found)
+\* (set-based: recursion over the characters of a 200-character coordinate overflows TLC's evaluation stack)
+IndexOf(s, sub) == LET C == {i \in 1..(Len(s) - Len(sub) + 1) : SubSeq(s, i, i + Len(sub) - 1) = sub}
+                   IN IF C = {} THEN 0 ELSE CHOOSE i \in C : \A j \in C : i <= j        \* str.find(sub) + 1  (0: not found)
 Contains(s, sub) == IndexOf(s, sub) > 0
-RECURSIVE SplitFrom(_, _, _, _)
-SplitFrom(s, sep, i, start) ==
-    IF i > Len(s) THEN <<SubSeq(s, start, Len(s))>>
-    ELSE IF SubSeq(s, i, i) = sep THEN <<SubSeq(s, start, i - 1)>> \o SplitFrom(s, sep, i + 1, i + 1)
-    ELSE SplitFrom(s, sep, i + 1, start)
-Split(s, sep) == SplitFrom(s, sep, 1, 1)         \* str.split(sep), one-character separator
+\* str.split(sep), one-character separator
+Split(s, sep) == LET P == {i \in 1..Len(s) : SubSeq(s, i, i) = sep}
+                     n == Cardinality(P)
+                     pos(k) == CHOOSE i \in P : Cardinality({j \in P : j < i}) = k - 1      \* k-th separator
+                 IN [k \in 1..(n + 1) |-> SubSeq(s, IF k = 1 THEN 1 ELSE pos(k - 1) + 1, IF k = n + 1 THEN Len(s) ELSE pos(k) - 1)]
 RECURSIVE Join(_, _)
 Join(parts, sep) == IF Len(parts) = 0 THEN ""
                     ELSE IF Len(parts) = 1 THEN parts[1]
                     ELSE parts[1] \o sep \o Join(Tail(parts), sep)
 RECURSIVE Concat(_)
-Concat(seqs) == IF Len(seqs) = 0 THEN <<>> ELSE seqs[1] \o Concat(Tail(seqs))
+Concat(seqs) == IF Len(seqs) = 0 THEN <<>> ELSE IF Len(seqs) = 1 THEN seqs[1]                  \* (halving: depth log n)
+                ELSE LET h == Len(seqs) \div 2 IN Concat(SubSeq(seqs, 1, h)) \o Concat(SubSeq(seqs, h + 1, Len(seqs)))
 Last(q) == q[Len(q)]
 ToSet(q) == {q[k] : k \in 1..Len(q)}
 
@@ -73,6 +71,50 @@ FileSource(r, name) == IF r \in {"driver", "problem"} THEN name
                        ELSE IF IsSys(r) THEN (IF PathOf(r) = "" THEN "root" ELSE PathOf(r))
                        ELSE IF IsNl(r) THEN (IF PathOf(r) = "" THEN "root" ELSE PathOf(r)) \o ".nonlinear_solver"
                        ELSE (IF PathOf(r) = "" THEN "root" ELSE PathOf(r)) \o ".nonlinear_solver.linesearch"
+
+\* ------------------------------------------------------------------------------------------------- the reader's parsing of coordinates (transcription)
+ErrAns(name) == [k |-> "err", v |-> <<name>>]
+FlatAns(q) == [k |-> "flat", v |-> q]
+NestedAns(q) == [k |-> "nested", v |-> q]
+
+Rows(L, t) == SelectSeq(L, LAMBDA c : Table(c.req) = t)                  \* a case table, ORDER BY id
+HasCoord(L, t, coord) == \E k \in 1..Len(L) : Table(L[k].req) = t /\ L[k].coord = coord
+\* CaseTable.get_case(coord): the FIRST row with that coordinate
+FirstRow(L, t, coord) == L[CHOOSE k \in 1..Len(L) : /\ Table(L[k].req) = t /\ L[k].coord = coord
+                                                    /\ \A j \in 1..(k - 1) : ~(Table(L[j].req) = t /\ L[j].coord = coord)]
+
+\* record_util.get_source_system: split at "|<digits>|", last part that ends in ._solve_nonlinear / ._apply_nonlinear
+CoordNames(coord) == LET p == Split(coord, "|") IN [k \in 1..((Len(p) + 1) \div 2) |-> p[2 * k - 1]]
+IsSysName(n) == EndsWith(n, "._solve_nonlinear") \/ EndsWith(n, "._apply_nonlinear")
+StripRank(n) == IF Contains(n, ":") THEN Split(n, ":")[2] ELSE n
+GetSourceSystem(coord) ==
+    LET ns == CoordNames(coord)
+        ks == {k \in 1..Len(ns) : IsSysName(ns[k])}
+    IN IF ks = {} THEN "root"
+       ELSE LET k == CHOOSE x \in ks : \A y \in ks : y <= x
+                part == StripRank(SubSeq(ns[k], 1, Len(ns[k]) - Len("._solve_nonlinear")))
+            IN IF part = "root" \/ StartsWith(part, "root.") THEN part ELSE "root." \o part
+\* SolverCases._get_source
+SolverSource(coord) ==
+    LET ss == GetSourceSystem(coord)
+        solve == Last(Split(ss, ".")) \o "._solve_nonlinear"
+        ix == IndexOf(coord, solve)
+        sysNodes == Len(Split(SubSeq(coord, 1, ix + Len(solve) - 1), "|")) + 1
+        numNodes == Len(Split(coord, "|"))
+    IN IF ix = 0 THEN "!ValueError"
+       ELSE IF numNodes = sysNodes + 2 THEN ss \o ".nonlinear_solver"
+       ELSE IF numNodes = sysNodes + 4 THEN ss \o ".nonlinear_solver.linesearch"
+       ELSE "!RuntimeError"
+GetSource(t, coord) == IF t = "driver" THEN "driver" ELSE IF t = "problem" THEN "problem"
+                       ELSE IF t = "system" THEN GetSourceSystem(coord) ELSE SolverSource(coord)
+\* Case.parent / the parent test of _list_cases_recurse_nested: the coordinate without its last two '|' parts
+ParentCoord(coord) == LET p == Split(coord, "|") IN Join(SubSeq(p, 1, Len(p) - 2), "|")
+\* a case as stored in the file.  req/start are the specification's knowledge (who recorded it, Len(log) at the push
+\* of its frame); coord/counter/src are the columns the reader sees; gs = <table>._get_source(coord) and
+\* pc = ParentCoord(coord) are pure functions of coord, evaluated once here instead of at every use below
+MkCase(r, coord, cnt, start, src) ==
+    [req |-> r, coord |-> coord, counter |-> cnt, start |-> start, src |-> src,
+     gs |-> GetSource(Table(r), coord), pc |-> ParentCoord(coord)]
 
 \* ------------------------------------------------------------------------------------------------- the run
 VARIABLES stack,      \* sequence of frames [n: name, i: iteration count, r: requester label or ""]
@@ -122,8 +164,7 @@ Exit ==
     /\ LET f == Last(stack) IN
        /\ IF WillRecord
           THEN /\ counter' = counter + 1
-               /\ log' = Append(log, [req |-> f.r, coord |-> Coordinate, counter |-> counter + 1,
-                                      start |-> Last(opened), src |-> FileSource(f.r, f.n)])
+               /\ log' = Append(log, MkCase(f.r, Coordinate, counter + 1, Last(opened), FileSource(f.r, f.n)))
           ELSE UNCHANGED <<counter, log>>
        \* System.record_iteration increments iter_count, and it is only CALLED when norec = 0;
        \* the driver increments its own counter once per iteration
@@ -138,8 +179,7 @@ Exit ==
 RecordProblem(name) ==
     /\ IF "problem" \in attached
        THEN /\ counter' = counter + 1
-            /\ log' = Append(log, [req |-> "problem", coord |-> name, counter |-> counter + 1,
-                                   start |-> Len(log), src |-> name])
+            /\ log' = Append(log, MkCase("problem", name, counter + 1, Len(log), name))
        ELSE UNCHANGED <<counter, log>>
     /\ UNCHANGED <<stack, opened, norec, ictr, prefix, attached>>
 
@@ -152,40 +192,6 @@ UniqueCoords(L) == \A i, j \in 1..Len(L) : (i # j /\ Table(L[i].req) = Table(L[j
 Coords(q) == [k \in 1..Len(q) |-> q[k].coord]
 
 \* ------------------------------------------------------------------------------------------------- the reader (transcription)
-ErrAns(name) == [k |-> "err", v |-> <<name>>]
-FlatAns(q) == [k |-> "flat", v |-> q]
-NestedAns(q) == [k |-> "nested", v |-> q]
-
-Rows(L, t) == SelectSeq(L, LAMBDA c : Table(c.req) = t)                  \* a case table, ORDER BY id
-HasCoord(L, t, coord) == \E k \in 1..Len(L) : Table(L[k].req) = t /\ L[k].coord = coord
-\* CaseTable.get_case(coord): the FIRST row with that coordinate
-FirstRow(L, t, coord) == L[CHOOSE k \in 1..Len(L) : /\ Table(L[k].req) = t /\ L[k].coord = coord
-                                                    /\ \A j \in 1..(k - 1) : ~(Table(L[j].req) = t /\ L[j].coord = coord)]
-
-\* record_util.get_source_system: split at "|<digits>|", last part that ends in ._solve_nonlinear / ._apply_nonlinear
-CoordNames(coord) == LET p == Split(coord, "|") IN [k \in 1..((Len(p) + 1) \div 2) |-> p[2 * k - 1]]
-IsSysName(n) == EndsWith(n, "._solve_nonlinear") \/ EndsWith(n, "._apply_nonlinear")
-StripRank(n) == IF Contains(n, ":") THEN Split(n, ":")[2] ELSE n
-GetSourceSystem(coord) ==
-    LET ns == CoordNames(coord)
-        ks == {k \in 1..Len(ns) : IsSysName(ns[k])}
-    IN IF ks = {} THEN "root"
-       ELSE LET k == CHOOSE x \in ks : \A y \in ks : y <= x
-                part == StripRank(SubSeq(ns[k], 1, Len(ns[k]) - Len("._solve_nonlinear")))
-            IN IF part = "root" \/ StartsWith(part, "root.") THEN part ELSE "root." \o part
-\* SolverCases._get_source
-SolverSource(coord) ==
-    LET ss == GetSourceSystem(coord)
-        solve == Last(Split(ss, ".")) \o "._solve_nonlinear"
-        ix == IndexOf(coord, solve)
-        sysNodes == Len(Split(SubSeq(coord, 1, ix + Len(solve) - 1), "|")) + 1
-        numNodes == Len(Split(coord, "|"))
-    IN IF ix = 0 THEN "!ValueError"
-       ELSE IF numNodes = sysNodes + 2 THEN ss \o ".nonlinear_solver"
-       ELSE IF numNodes = sysNodes + 4 THEN ss \o ".nonlinear_solver.linesearch"
-       ELSE "!RuntimeError"
-GetSource(t, coord) == IF t = "driver" THEN "driver" ELSE IF t = "problem" THEN "problem"
-                       ELSE IF t = "system" THEN GetSourceSystem(coord) ELSE SolverSource(coord)
 \* CaseTable.list_sources (format_version >= 5: from the source column of global_iterations)
 RdTableSources(L, t) == IF t = "driver" THEN {"driver"} ELSE IF t = "problem" THEN {"problem"}
                         ELSE {IF StartsWith(c.src, "root") THEN c.src ELSE "root." \o c.src : c \in ToSet(Rows(L, t))}
@@ -205,7 +211,6 @@ RdFlat(L, coord) == RdFlatW(L, coord, 0)
 
 \* _list_cases_recurse_nested(coord): children = solver/system cases in range(0, parent.counter - 1) whose coordinate
 \* without its last two '|' parts IS the parent's coordinate.  A tree is [c |-> coordinate, ch |-> <<trees>>]
-ParentCoord(coord) == LET p == Split(coord, "|") IN Join(SubSeq(p, 1, Len(p) - 2), "|")
 RECURSIVE RdNestedTree(_, _)
 RdNestedTree(L, coord) ==
     LET t == IF HasCoord(L, "driver", coord) THEN "driver" ELSE IF HasCoord(L, "system", coord) THEN "system" ELSE "solver"
@@ -213,7 +218,7 @@ RdNestedTree(L, coord) ==
         kids == SelectSeq(SubSeq(L, 1, p.counter - 1),
                           LAMBDA c : /\ Table(c.req) \in {"solver", "system"}
                                      /\ StartsWith(c.coord, coord)
-                                     /\ ParentCoord(c.coord) = coord)
+                                     /\ c.pc = coord)
     IN [c |-> p.coord, ch |-> [k \in 1..Len(kids) |-> RdNestedTree(L, kids[k].coord)]]
 RdNestedOK(L, coord) == \E t \in {"driver", "system", "solver"} : HasCoord(L, t, coord)
 
@@ -226,7 +231,7 @@ RdListCases(L, source, recurse, flat) ==
         t == IF src = "driver" THEN "driver"
              ELSE IF src \in RdTableSources(L, "system") THEN "system"
              ELSE IF src \in RdTableSources(L, "solver") THEN "solver" ELSE "none"
-        mine == SelectSeq(Rows(L, t), LAMBDA c : GetSource(t, c.coord) = src)      \* case_table.list_cases(source)
+        mine == SelectSeq(Rows(L, t), LAMBDA c : c.gs = src)      \* case_table.list_cases(source)
     IN IF src = "!none" THEN ErrAns("RuntimeError")
        ELSE IF src = "" THEN RdFlat(L, "")
        ELSE IF src = "problem" THEN FlatAns(Coords(Rows(L, "problem")))
@@ -252,7 +257,8 @@ Inside(L, j, i) == L[i].start < j /\ j < i                         \* case j was
 \* j is a child of i: inside i and inside no other recorded frame that is itself inside i
 ChildOf(L, j, i) == Inside(L, j, i) /\ ~\E k \in (j + 1)..(i - 1) : Inside(L, j, k)
 RECURSIVE TrueTree(_, _)
-TrueTree(L, i) == LET kids == SelectSeq([k \in 1..Len(L) |-> k], LAMBDA j : ChildOf(L, j, i))
+TrueTree(L, i) == LET lo == L[i].start
+                      kids == SelectSeq([k \in 1..(i - 1 - lo) |-> lo + k], LAMBDA j : ChildOf(L, j, i))
                   IN [c |-> L[i].coord, ch |-> [k \in 1..Len(kids) |-> TrueTree(L, kids[k])]]
 IdxOfCoord(L, coord) == CHOOSE i \in 1..Len(L) : L[i].coord = coord
 TrueSources(L) == {PublicSource(L[i].req) : i \in 1..Len(L)}
